@@ -511,7 +511,7 @@ func runC09(r *Run) {
 			if n == "errors.Join" {
 				// varargs slice: look at stores into the varargs array
 				cnt := 0
-				for _, b := range fn.Blocks {
+				for _, b := range a.blocks() {
 					for _, x := range b.Instrs {
 						if st, ok := x.(*ssa.Store); ok {
 							if ia, ok := st.Addr.(*ssa.IndexAddr); ok {
@@ -574,7 +574,7 @@ func checkRequiredOptions(r *Run) {
 	}
 	va := w.AU(vs)
 	validated := map[string]bool{}
-	for _, b := range vs.Blocks {
+	for _, b := range va.blocks() {
 		if len(b.Instrs) == 0 {
 			continue
 		}
